@@ -168,7 +168,8 @@ HeaderClauses(dec, rgs, lfs, cobj) ==
                ELSE LET o == hdr.objs[1]
                         sq == OneStr(AttrOf(hdr, o, lSEQNUM))
                         id == OneStr(AttrOf(hdr, o, lID))
-                    IN (IF sq = RJust(lfs[k].fh_seq_dec, 10) THEN {} ELSE {"C09.HeaderSeqNo"})
+                        dg == SelectSeq(sq, LAMBDA c : c # 32)      \* "the user's number": decimal digits, right-justified
+                    IN (IF sq = RJust(lfs[k].fh_seq_dec, 10) /\ Len(dg) >= 1 /\ (\A q \in DOMAIN dg : dg[q] \in 48..57) THEN {} ELSE {"C09.HeaderSeqNo"})
                   \cup (IF id = LJust(lfs[k].fh_id, 65) THEN {}
                         ELSE IF \E j \in DOMAIN lfs : j # k /\ id = LJust(lfs[j].fh_id, 65) THEN {"C18.OwnHeader"} ELSE {"C09.HeaderId"})
              : k \in { x \in DOMAIN rgs : x <= Len(lfs) } }
